@@ -53,6 +53,8 @@ type Alias struct {
 type File struct {
 	Content string `json:"content"`
 	Exec    bool   `json:"exec,omitempty"`
+	// Link: the entry is a symbolic link with this target (Content is ignored)
+	Link string `json:"link,omitempty"`
 }
 
 // Source is a complete workspace definition.
@@ -148,6 +150,18 @@ func (s *Source) Materialize(ws string, prev *Source) error {
 		return err
 	}
 	for rel, f := range s.Files {
+		if f.Link != "" {
+			p := filepath.Join(ws, rel)
+			if cur, err := os.Readlink(p); err == nil && cur == f.Link {
+				continue
+			}
+			os.MkdirAll(filepath.Dir(p), 0o755)
+			os.Remove(p)
+			if err := os.Symlink(f.Link, p); err != nil {
+				return err
+			}
+			continue
+		}
 		mode := os.FileMode(0o644)
 		if f.Exec {
 			mode = 0o755
